@@ -15,11 +15,25 @@ returns with the process still alive.  Deaths carry an exit status (0 = clean re
 1 = crash, -9 = killed by a signal) chosen from (pid + tick) mod 3; the model does not look at it - the
 statement says "every worker that died".
 
+Optional "env": {"name": str, "child": bool}: the process the MANAGER itself runs in.  Default = the top-level
+process (current_process().name == "MainProcess", parent_process() is None).  child = the manager was started by
+multiprocessing (a supervisor doing Process(target=run_worker)): parent_process() is a process object,
+current_process() has that name and a _parent_pid.  The statements do not depend on who started the manager.
+
 Fakes: Process (new/live/zombie/reaped; is_alive()/join()/exitcode reap, as multiprocessing does), Event, a
-synchronous FIFO Queue, sleep, os.kill (ProcessLookupError on a reaped pid, as POSIX does),
-signal.signal (captures the handlers), current_process."""
+synchronous FIFO Queue WITH multiprocessing.Queue's bound (maxsize <= 0 = unbounded; a blocking put() on a full
+queue made by the manager's own thread - the drain loop, the scan, a signal handler - can never return because
+that thread is the only consumer: PutBlocks; the watchdog thread's put() waits until a get() frees a slot),
+sleep, os.kill (ProcessLookupError on a reaped pid, as POSIX does), signal.signal (captures the handlers),
+current_process / parent_process / active_children.  Every other multiprocessing name the module under test
+holds is replaced by a stub that raises OutsideModel when used (fail closed)."""
+import multiprocessing as real_mp
+import multiprocessing.process as real_mp_process
+import os as real_os
+import queue as real_queue
 import signal as real_signal
 import sys
+import time as real_time
 import types
 
 import taskiq.cli.worker.process_manager as pm
@@ -34,6 +48,18 @@ class Stop(BaseException):
 
 class JoinBlocks(BaseException):
     pass
+
+
+class PutBlocks(BaseException):
+    """a blocking put() on a full queue by the thread that is the queue's only consumer"""
+
+
+class GetBlocks(BaseException):
+    """a blocking get() on an empty queue by the manager's thread with nothing left in the script to fill it"""
+
+
+class OutsideModel(BaseException):
+    """the code under test used a multiprocessing facility the fakes do not provide"""
 
 
 class World:
@@ -136,27 +162,68 @@ def describe(a):
 
 
 class FQueue:
-    def __init__(self, maxsize=0):
-        pass
+    """multiprocessing.Queue as the manager sees it: FIFO, put() visible to the next empty()/get(), bounded by
+    maxsize when maxsize > 0 (multiprocessing turns maxsize <= 0 into SEM_VALUE_MAX)."""
+
+    def __init__(self, maxsize=0, **kw):
+        self.maxsize = maxsize if type(maxsize) is int and maxsize > 0 else 0
+        self.items = []
+        self.pending = []           # put() calls of the watchdog thread waiting for a free slot
+        W.qmax.append(self.maxsize)
+
+    def full(self):
+        return bool(self.maxsize) and len(self.items) >= self.maxsize
+
+    def qsize(self):
+        return len(self.items)
 
     def put(self, x, block=True, timeout=None):
         if isinstance(x, pm.ReloadOneAction) and not x.is_reload_all:
             ws = W.mgr.workers
             W.puts.append(dict(tick=len(W.ticks) - 1, slot=x.worker_num,
                                state=ws[x.worker_num].state if 0 <= x.worker_num < len(ws) else None))
-        W.queue.append(x)
+        if self.full():
+            W.full_puts += 1
+            if not block or timeout is not None:
+                raise real_queue.Full       # nobody consumes while this thread waits for its timeout
+            if W.in_watcher:
+                self.pending.append(x)      # the watchdog thread blocks; the manager goes on
+                return
+            raise PutBlocks(describe(x), [describe(a) for a in self.items], self.maxsize)
+        self.items.append(x)
+
+    def put_nowait(self, x):
+        return self.put(x, False)
 
     def get(self, block=True, timeout=None):
-        a = W.queue.pop(0)
+        if not self.items:
+            if not block or timeout is not None:
+                raise real_queue.Empty
+            raise GetBlocks()
+        a = self.items.pop(0)
+        while self.pending and not self.full():
+            self.items.append(self.pending.pop(0))
         eff("got", *describe(a))
         return a
+
+    def get_nowait(self):
+        return self.get(False)
 
     def empty(self):
         k = W.drain_idx
         W.drain_idx += 1
         if W.cur is not None and k < len(W.cur["drain"]):
             deliver(W.cur["drain"][k])
-        return not W.queue
+        return not self.items
+
+    def close(self):
+        pass
+
+    def join_thread(self):
+        pass
+
+    def cancel_join_thread(self):
+        pass
 
 
 def deliver(evs):
@@ -173,7 +240,11 @@ def deliver(evs):
         elif ev[0] == "term":
             W.handlers[S.SIGTERM](S.SIGTERM, None)
         elif ev[0] == "file":
-            pm.schedule_workers_reload(W.mgr.action_queue)
+            W.in_watcher = True             # the watchdog observer's thread, not the manager's
+            try:
+                pm.schedule_workers_reload(W.mgr.action_queue)
+            finally:
+                W.in_watcher = False
         else:
             raise ValueError(ev)
 
@@ -220,18 +291,116 @@ class FSignal(types.ModuleType):
         W.handlers[num] = h
 
 
-class FCur:
-    name = "MainProcess"
+MANAGER_PARENT_PID = 3000
+
+
+class FSelf:
+    """what multiprocessing.current_process() / parent_process() return (the attributes of BaseProcess)"""
+
+    def __init__(self, name, pid, parent_pid):
+        self.name, self.pid, self.ident, self.daemon = name, pid, pid, False
+        self._parent_pid = parent_pid
+        self.exitcode = None
+        self.authkey = b"k"
+
+    def is_alive(self):
+        return True
+
+    def __repr__(self):
+        return "<FSelf %s %s>" % (self.name, self.pid)
+
+
+def fcurrent_process():
+    return W.me
+
+
+def fparent_process():
+    return W.parent
+
+
+def factive_children():
+    for p in W.all:                 # multiprocessing.active_children() polls (reaps) finished children
+        if p.state == "zombie":
+            p.state = "reaped"
+    return [p for p in W.all if p.state == "live"]
+
+
+class Stub:
+    """stands for a multiprocessing name without a fake: any use is an observation outside the model"""
+
+    def __init__(self, name):
+        object.__setattr__(self, "_stub_name", name)
+
+    def __call__(self, *a, **kw):
+        raise OutsideModel(self._stub_name)
+
+    def __getattr__(self, a):
+        raise OutsideModel(self._stub_name + "." + a)
+
+
+MP_FAKES = dict(Process=FProc, Event=FEvent, Queue=FQueue, current_process=fcurrent_process,
+                parent_process=fparent_process, active_children=factive_children)
+
+
+class FMp(types.ModuleType):
+    """`import multiprocessing` / `import multiprocessing as mp` inside the module under test"""
+
+    def __getattr__(self, n):
+        if n in MP_FAKES:
+            return MP_FAKES[n]
+        raise OutsideModel("multiprocessing." + n)
+
+
+class FTime(types.ModuleType):
+    def __getattr__(self, n):
+        return fsleep if n == "sleep" else getattr(real_time, n)
+
+
+def _mp_origin(v):
+    if isinstance(v, types.ModuleType):
+        return v.__name__
+    m = getattr(v, "__module__", None)
+    if not isinstance(m, str):
+        m = getattr(type(v), "__module__", "") or ""
+    return m
 
 
 def setup(opts):
+    # by identity: whatever name the module bound the real object to (from x import y as z)
+    by_id = [(getattr(real_mp, k), f) for k, f in MP_FAKES.items()]
+    by_id += [(real_time.sleep, fsleep), (real_os, FOs("os")), (real_signal, FSignal("signal")),
+              (real_time, FTime("time")), (real_os.kill, FOs("os").kill), (real_os.getpid, FOs("os").getpid),
+              (real_signal.signal, FSignal("signal").signal)]
+    W.unmodelled = []
+    W.all, W.parent, W.me = [], None, FSelf("MainProcess", MANAGER_PID, None)
+    for name, v in list(vars(pm).items()):
+        if name.startswith("__"):
+            continue
+        for real, fake in by_id:
+            if v is real or (callable(v) and not isinstance(v, type) and v == real):
+                setattr(pm, name, fake)
+                break
+        else:
+            org = _mp_origin(v)
+            if org == "multiprocessing" or org.startswith("multiprocessing."):
+                if isinstance(v, types.ModuleType) and org == "multiprocessing":
+                    setattr(pm, name, FMp("multiprocessing"))
+                else:       # e.g. EventType (annotations only), get_context, Pipe, a context object
+                    W.unmodelled.append(name)
+                    setattr(pm, name, Stub(name))
+    # the names the unchanged module uses, unconditionally (as before)
     pm.Process = FProc
     pm.Event = FEvent
     pm.Queue = FQueue
     pm.sleep = fsleep
     pm.os = FOs("os")
     pm.signal = FSignal("signal")
-    pm.current_process = lambda: FCur
+    pm.current_process = fcurrent_process
+    # a function-local `import multiprocessing` / `from multiprocessing import ...` sees the same environment
+    for m in (real_mp, real_mp_process):
+        for k in ("current_process", "parent_process", "active_children"):
+            if hasattr(m, k):
+                setattr(m, k, MP_FAKES[k])
 
 
 def run_case(c, opts):
@@ -243,8 +412,13 @@ def run_case(c, opts):
     W.procs, W.all = {}, []
     W.next_pid = c["p0"]
     W.slow = c.get("slow") or 0
-    W.handlers, W.queue = {}, []
+    W.handlers = {}
     W.bounds, W.puts, W.kills, W.start_info = [], [], [], []
+    W.qmax, W.full_puts, W.in_watcher = [], 0, False
+    env = c.get("env") or {}
+    child = bool(env.get("child"))
+    W.parent = FSelf("MainProcess", MANAGER_PARENT_PID, None) if child else None
+    W.me = FSelf(env.get("name") or "MainProcess", MANAGER_PID, MANAGER_PARENT_PID if child else None)
     W.mgr = pm.ProcessManager(WorkerArgs(broker="x:y", modules=[], workers=c["n"], max_fails=c["mf"]),
                               worker_function=lambda args: None)
     try:
@@ -261,11 +435,21 @@ def run_case(c, opts):
         res = ["running"]
     except JoinBlocks as e:
         res = ["join-blocks", e.args[0]]
+    except PutBlocks as e:
+        res = ["put-blocks", dict(action=e.args[0], queue=e.args[1], maxsize=e.args[2])]
+    except GetBlocks:
+        res = ["get-blocks"]
+    except OutsideModel as e:
+        res = ["outside-model", e.args[0]]
     except ProcessLookupError as e:
         res = ["crash", e.args[0]]
-    except Exception as e:  # anything else escaping start()
+    except BaseException as e:  # anything else escaping start() (KeyboardInterrupt and SystemExit included)
         res = ["exc", repr(e)]
-    return dict(ticks=W.ticks, result=res, final=snapshot(), queue=[describe(a) for a in W.queue],
+    q = W.mgr.action_queue
+    if not isinstance(q, FQueue):
+        return dict(_crash="action_queue is not the fake queue: %r" % (q,))
+    return dict(ticks=W.ticks, result=res, final=snapshot(), queue=[describe(a) for a in q.items + q.pending],
+                qmax=W.qmax, full_puts=W.full_puts, unmodelled=W.unmodelled,
                 bounds=W.bounds, puts=W.puts, kills=W.kills, start_info=W.start_info,
                 handlers=sorted(int(k) for k in W.handlers),
                 exitcodes=[[p.pid, p.code] for p in W.all if p.code is not None])
